@@ -28,6 +28,7 @@ func runC15(c *an.Ctx, p *an.Prog, thorough bool) {
 	// C15.4 = C08.3
 	c082as(c, p, x)
 	c155(c, p, x)
+	c155b(c, p, x, "C15.5")
 	c156(c, p, x)
 }
 
@@ -53,7 +54,12 @@ func mutatingReach(p *an.Prog, root *ssa.Function, crossGo bool) (bad []string, 
 			continue
 		}
 		nfuncs++
-		calls, _ := p.ExtCalls(f)
+		calls, unknown := p.ExtCalls(f)
+		if p.InRepo(f) {
+			for _, u := range unknown {
+				bad = append(bad, fmt.Sprintf("unclassified primitive %s in %s at %s via %s (classify it in the effect table after reading it)", u.Name, fnKey(f), p.InstrPos(u.In), an.Chain(reach, f)))
+			}
+		}
 		for _, ec := range calls {
 			eff := ec.Effect
 			if eff == "writer" {
@@ -453,6 +459,56 @@ func conditionalCleanup(s *an.PathState, open an.Event) bool {
 		}
 	}
 	return false
+}
+
+// c155b: a record-writing function reports success only after the rename onto the final name succeeded.
+func c155b(c *an.Ctx, p *an.Prog, x *fsx, rule string) {
+	for _, cs := range commitSites(p, x) {
+		fn, ren := cs.Fn, cs.In
+		isCommit := false
+		var bad []string
+		n := 0
+		er := an.EnumPaths(fn, nil, nil, func(s *an.PathState) {
+			// only functions whose rename moves a temp file over a user file
+			idx := indexOfInstr(s.Events, ren)
+			if idx >= 0 {
+				a := s.Events[idx].Args
+				if x.shapeOf(s, a[0], 0).Kind == "tmpfile" && x.shapeOf(s, a[1], 0).Kind == "user" {
+					isCommit = true
+				}
+			}
+			k, r := exitKind(s)
+			if k != "success" && k != "maybe" {
+				return
+			}
+			n++
+			if idx < 0 {
+				// did this path at least open the final name? then success without commit is a lie
+				for _, e := range s.Events {
+					if e.Kind == "call" && e.Callee == "os.OpenFile" && callErrNil(s, e.Res) {
+						desc := "nil"
+						if r != nil {
+							desc = shortTerm(r)
+						}
+						bad = append(bad, "success ("+desc+") is returned on path "+s.BlockPath()+" although the new record was never moved in place")
+					}
+				}
+				return
+			}
+			if !callErrNil(s, s.Events[idx].Res) {
+				if r == nil || r.K != s.Events[idx].Res.K {
+					bad = append(bad, "success returned although the rename may have failed (path "+s.BlockPath()+")")
+				}
+			}
+		})
+		if !isCommit {
+			continue
+		}
+		if !er.Complete {
+			bad = append(bad, "path limit")
+		}
+		c.Check(len(bad) == 0 && n > 0, rule, fnKey(fn)+"|success-only-after-commit", p.InstrPos(ren), fmt.Sprintf("%d non-failing exits, each after the rename onto the final name", n), strings.Join(uniqS(bad), "; "))
+	}
 }
 
 // c156: after a successful rename onto a user file no exit may report failure.
